@@ -259,6 +259,7 @@ namespace RecInt
     // computes (q, r) such that a = q*b + r (0 <= r < b)
     template <size_t K, typename T>
     inline __RECINT_IS_ARITH(T, void) div(ruint<K>& q, T& r, const ruint<K>& a, const T& b) {
+        if (__recint_isneg(b)) { limb rr; div(q, rr, a, __recint_mag(b)); q = -q; r = T(rr); return; } // truncated quotient, remainder >= 0
         if (b == 2) {
             bool z;
             right_shift_1(z, q, a);
@@ -305,6 +306,7 @@ namespace RecInt
     }
     template <size_t K, typename T>
     inline __RECINT_IS_ARITH(T, ruint<K>&) div_q(ruint<K>& q, const ruint<K>& a, const T& b) {
+        if (__recint_isneg(b)) { div_q(q, a, __recint_mag(b)); return (q = -q); }
         ruint<K> r, bb(b);
         div(q, r, a, bb);
         return q;
